@@ -18,8 +18,8 @@ PROPS = {
         level_note="Trusts testing/synctest's virtual clock to behave like the real one; the consumer keeps reading and at most 8 duties share an instant "
                    "(documented 10-slot buffer); Add at exactly the deadline instant is treated as unspecified.",
         runs={
-            "quick": [dict(test="TestC16Deadliner", checks=30000), dict(test="TestC16ClockJumps", checks=20000)],
-            "thorough": [dict(test="TestC16Deadliner", checks=400000, shards=12, timeout=1500), dict(test="TestC16ClockJumps", checks=400000, shards=4, timeout=1500)],
+            "quick": [dict(test="TestC16Deadliner", checks=30000), dict(test="TestC16ClockJumps", checks=20000), dict(test="TestC16Production", checks=6000)],
+            "thorough": [dict(test="TestC16Deadliner", checks=400000, shards=12, timeout=1500), dict(test="TestC16ClockJumps", checks=400000, shards=4, timeout=1500), dict(test="TestC16Production", checks=200000, shards=2, timeout=1500)],
         },
     ),
     "C02": dict(
